@@ -45,6 +45,7 @@ type CheckCfg struct {
 	Sinks     []string          `json:"sinks"`
 	InitPkgs  []string          `json:"init_pkgs"`
 	Redirects map[string]string `json:"redirects"`
+	ZeroStubs []string          `json:"zero_stubs"` // functions replaced by "return zero values" (listed in the evidence)
 	Assumptions []string        `json:"assumptions"`
 	Bounds    map[string]string `json:"bounds"`
 	TrustedBase []string        `json:"trusted_base"`
@@ -163,10 +164,25 @@ func (e *Engine) classify1(fn *ssa.Function) fnClass {
 	if _, ok := e.intrinsics[key]; ok {
 		return clsIntrinsic
 	}
+	for _, z := range e.cfg.ZeroStubs {
+		if z == key {
+			return clsSink
+		}
+	}
 	// harness runtime (v* functions) are matched by bare name inside followed packages
 	if fn.Pkg != nil && fn.Parent() == nil && fn.Signature.Recv() == nil {
 		if in, ok := rtIntrinsics[fn.Name()]; ok && e.followPkg(fn.Pkg.Pkg.Path()) {
 			e.intrinsics[key] = in
+			return clsIntrinsic
+		}
+	}
+	// String() of protobuf enums (int32-based named types outside the repo) goes
+	// through protoimpl reflection; modelled as an injective rendering of the number
+	if fn.Name() == "String" && fn.Signature.Recv() != nil && fn.Signature.Params().Len() == 0 && !strings.HasPrefix(fnPkgPath(fn), "github.com/zilliztech/milvus-cdc/") {
+		if b, ok := fn.Signature.Recv().Type().Underlying().(*types.Basic); ok && b.Kind() == types.Int32 {
+			e.intrinsics[key] = func(c *PathCtx, fr *frame, args []Value) Value {
+				return tConcat(mkStr("enum#"), fmtInt(c, args[0].(*Term), true))
+			}
 			return clsIntrinsic
 		}
 	}
